@@ -20,9 +20,9 @@ def ShankHolds (c : Nat) (o : Option Shank) : Prop :=
   ∃ sh, o = some sh ∧ FilesHold (.good c) sh.ap ∧ sh.ap.md = true
 
 /-- "The original samples stay recoverable byte for byte": from the original's own file, or -- NP2.4 -- by
-reassembling the ap files of all `n ≥ 1` shank folders. -/
+reassembling the ap files of all `n ≥ 1` shank folders, provided they are ALL the shanks of the probe (no partial selection). -/
 def Recoverable (cfg : Cfg) (s : Disk) : Prop :=
-  OrigHolds s ∨ (cfg.kind = .np24 ∧ 0 < cfg.n ∧ ∀ i, i < cfg.n → ShankHolds cfg.c (s.shanks i))
+  OrigHolds s ∨ (cfg.kind = .np24 ∧ cfg.partialSel = false ∧ 0 < cfg.n ∧ ∀ i, i < cfg.n → ShankHolds cfg.c (s.shanks i))
 
 /-- Earlier output exists: all expected shank folders (NP2.4), the lf file as `.bin` or `.cbin` (NP2.1). -/
 def OutputExists (cfg : Cfg) (s : Disk) : Prop :=
@@ -52,9 +52,10 @@ def Complete (cfg : Cfg) (compress : Bool) (s : Disk) : Prop :=
   | .np21 => FilesComplete compress (.good cfg.c) s.lf ∧ (compress = true → s.orig = .cbin ∧ s.och = true)
   | .np1 => True
 
-/-- The environment leaves the run alone: no exception, and the split is faithful for every shank. -/
+/-- The environment leaves the run alone: no exception, every shank of the probe is converted, and the split is faithful for
+every shank. -/
 def NoFault (cfg : Cfg) (call : Call) : Prop :=
-  call.interrupt = none ∧ ∀ i, i < cfg.n → altered cfg call i = false
+  call.interrupt = none ∧ cfg.partialSel = false ∧ ∀ i, i < cfg.n → altered cfg call i = false
 
 /-- The converter object whose `process` a call runs: the one the call builds, or (`reuse`) the one kept from the
 previous step. -/
